@@ -54,6 +54,8 @@ func runC38(op string) string {
 	switch f[1] {
 	case "x":
 		return g8RunVrfX(f)
+	case "sok":
+		return g8RunVrfSmallOrder(f)
 	case "pv":
 		if len(f) != 4 {
 			return "bad-op"
@@ -199,6 +201,13 @@ func genC38(r *Rand, n int, tier string, emit func(string)) {
 		if r.Chance(1, 8) {
 			emit(fmt.Sprintf("vrf smallorder %d %s %s", r.Intn(8), hexs(seed), hexs(alpha)))
 			i++
+		}
+		// every small-order key encoding, each with a proof crafted for it
+		if r.Chance(1, 6) {
+			for k := range g8SmallOrderKeys {
+				emit(fmt.Sprintf("vrf sok %d %s %s", k, hexs(seed), hexs(alpha)))
+				i++
+			}
 		}
 		if tier == "thorough" && r.Chance(1, 40) {
 			// exhaustive single-bit flips over the 80-byte proof and the 32-byte key
